@@ -136,7 +136,7 @@ Proof.
   induction fs as [|a fs IH]; intros acc ws uga w1; cbn.
   - intros [= <- _]. exists []. rewrite app_nil_r. auto.
   - destruct (is_assumption a) eqn:Ea.
-    + destruct (forallb _ (predicates (an_formula a))); [|discriminate]. intros H.
+    + destruct (is_nil (output_overlap _ a)); [|discriminate]. intros H.
       destruct (IH _ _ _ _ H) as [rest [-> Er]]. exists (rp_annot m a :: rest). rewrite <- app_assoc. split; [reflexivity|].
       cbn. rewrite Er. reflexivity.
     + intros H. destruct (IH _ _ _ _ H) as [rest [-> Er]]. exists rest. auto.
